@@ -631,7 +631,9 @@ func (x *Exec) appendOp(fr *Frame, st *State, s, t V, rt types.Type) V {
 	sarr := x.heapGet(st, key, et)
 	fresh := x.newRef(st)
 	newCap := x.s.declare("newcap", "Int")
-	x.assume("true", "(>= "+newCap+" "+n+")")
+	x.assume("true", "(and (>= "+newCap+" "+n+") (<= "+newCap+" 9223372036854775807))")
+	// a slice longer than MaxInt cannot exist (allocation failure is not modelled)
+	x.assume(st.guard, "(<= "+n+" 9223372036854775807)")
 	// destination header
 	dstBase := x.define("ab", "Int", ite(fits, "(s_base "+s.S+")", fresh))
 	dstOff := x.define("ao", "Int", ite(fits, "(s_off "+s.S+")", "0"))
